@@ -426,19 +426,37 @@ def part_hist(params, tier, acc):
     acc.sample(dict(part="hist", histories=len(HIST_STEPS) * 2))
 
 
+def _drop_tmp():
+    # pool workers leave through os._exit (no atexit): the scratch directory
+    # of the binaries is removed at the end of every shard / replay
+    global _tmp
+    if _tmp is not None:
+        shutil.rmtree(_tmp, True)
+        _tmp = None
+
+
 def run_shard(params, tier, acc):
-    if params["part"] == "hist":
-        part_hist(params, tier, acc)
-        return
-    if params["part"] == "A":
-        part_A(params, tier, acc)
-    elif params["part"] == "B":
-        part_B(params, tier, acc)
-    else:
-        part_big(params, tier, acc)
+    try:
+        if params["part"] == "hist":
+            part_hist(params, tier, acc)
+        elif params["part"] == "A":
+            part_A(params, tier, acc)
+        elif params["part"] == "B":
+            part_B(params, tier, acc)
+        else:
+            part_big(params, tier, acc)
+    finally:
+        _drop_tmp()
 
 
 def replay(case, acc):
+    try:
+        _replay(case, acc)
+    finally:
+        _drop_tmp()
+
+
+def _replay(case, acc):
     if case.get("hist"):
         hist_execution(case, acc)
         return
